@@ -385,7 +385,6 @@ func (c *Ctx) ruleCaretLine(fmtFn *ssa.Function) {
 	c.check(sameLine && sameLimit && cols, "EXCERPT/CARET-ARGS", name, where, "caret column and displayed text are computed from the same source line, the same limit and the diagnostic's column",
 		fmt.Sprintf("truncateString and calculateDisplayColumn are not given the same source line / limit / the diagnostic's column [line:%v limit:%v column:%v]", sameLine, sameLimit, cols))
 	c.ruleCaretColumn(trunc, disp)
-	c.ruleCaretPad(trunc, disp)
 	// the element of content and the element of lineNumbers with the same index
 	lineIdx := elemIndexOf(P, trunc.Call.Args[0], "content")
 	var numIdx ssa.Value
@@ -406,56 +405,11 @@ func (c *Ctx) ruleCaretLine(fmtFn *ssa.Function) {
 	okIdx := guarded && lineIdx != nil && numIdx != nil && (lineIdx == numIdx || P.Desc(lineIdx) == P.Desc(numIdx) && sameLoopIndex(lineIdx, numIdx))
 	c.check(okIdx, "EXCERPT/CARET-LINE", name, where, "the caret is written under the excerpt line whose number equals the diagnostic's line (content[i] and lineNumbers[i], same i)",
 		"the caret line is not written exactly when lineNumbers[i] == position.Line for the i of the line just shown")
-	// the number printed beside the text is that same number
-	printed := false
-	if guarded {
-		for _, f := range P.StaticClosure(fmtFn) {
-			if f != fmtFn && P.isAnchor(f) {
-				continue
-			}
-			allInstrs(f, func(b *ssa.BasicBlock, ins ssa.Instruction) {
-				call, ok := ins.(*ssa.Call)
-				if !ok || !(P.CallTo(call, "fmt.Sprintf") != nil || P.CallTo(call, "fmt.Fprintf") != nil) {
-					return
-				}
-				if b != trunc.Block() {
-					return
-				}
-				for _, a := range call.Call.Args {
-					if P.Desc(a) == numDesc {
-						printed = true
-					}
-					// variadic arguments: the values boxed into the argument array
-					sl, ok := a.(*ssa.Slice)
-					if !ok {
-						continue
-					}
-					arr, ok := sl.X.(*ssa.Alloc)
-					if !ok || arr.Referrers() == nil {
-						continue
-					}
-					for _, r := range *arr.Referrers() {
-						ia, ok := r.(*ssa.IndexAddr)
-						if !ok || ia.Referrers() == nil {
-							continue
-						}
-						for _, r2 := range *ia.Referrers() {
-							if st, ok := r2.(*ssa.Store); ok && st.Addr == ia {
-								v := st.Val
-								if mi, ok := v.(*ssa.MakeInterface); ok {
-									v = mi.X
-								}
-								if P.Desc(v) == numDesc {
-									printed = true
-								}
-							}
-						}
-					}
-				}
-			})
-		}
+	// the number printed beside the text is that same number; margin, padding and caret of the caret line
+	if !guarded {
+		numDesc = ""
 	}
-	c.check(printed, "EXCERPT/NUMBER-SHOWN", name, where, "the number printed beside an excerpt line is its lineNumbers entry", "the number printed beside an excerpt line is not the lineNumbers entry of that line")
+	c.ruleCaretLineText(trunc, disp, numDesc)
 }
 
 // elemIndexOf: v is (a copy of) x.<field>[i]: returns i.
